@@ -310,7 +310,9 @@ def monitor(ops, outs):
                 consume(len(pending) - q, k)
             delivered = True
         else:
-            consume(len(pending) - q, k)
+            # free without anything handed out (caller error): the radio drops its oldest PDU, which
+            # the reassembly never saw
+            del pending[:max(0, len(pending) - q)]
         if kv.get("inv") == "0":
             fail(k, "reassembly-state-out-of-bounds", "state out of bounds after free")
         handed = None
